@@ -3,6 +3,8 @@
 package apisim
 
 import (
+	"github.com/safing/portbase/formats/dsd"
+	"github.com/safing/portbase/database/record"
 	"encoding/base64"
 	"encoding/json"
 	"errors"
@@ -60,6 +62,7 @@ type Step struct {
 	Host    int       `json:"host,omitempty"`
 	Panic   bool      `json:"panic,omitempty"`
 	PanicLate bool    `json:"panic_late,omitempty"` // the handler has already started its response when it panics
+	Via     int       `json:"via,omitempty"` // 0 a custom http.Handler; 1-5 a registered Endpoint with ActionFunc, DataFunc, StructFunc, RecordFunc, HandlerFunc
 	Secs    int       `json:"secs,omitempty"`
 	Keys    []KeySpec `json:"keys,omitempty"`
 	Dev     bool      `json:"dev,omitempty"`
@@ -120,6 +123,9 @@ func (H) Generate(prop string, rng *rand.Rand, tier string) any {
 		}
 		s.Panic = prop == "C06" || rng.IntN(12) == 0
 		s.PanicLate = s.Panic && rng.IntN(3) == 0
+		if rng.IntN(3) == 0 {
+			s.Via = 1 + rng.IntN(5)
+		}
 		s.Secs = []int{1, 60, 240, 290, 310, 360, 700}[rng.IntN(7)]
 		s.Dev = rng.IntN(2) == 0
 		if s.Kind == "setkeys" {
@@ -227,6 +233,49 @@ func (s *state) drainReports() []*modules.ModuleError {
 			return s.reports
 		}
 	}
+}
+
+// endpoint function bodies: record the invocation like the custom handler does
+func epRan(ar *api.Request) {
+	if curObs != nil {
+		curObs.ran = true
+		if ar != nil {
+			curObs.token = ar.AuthToken
+		}
+	}
+	if curPanic {
+		panic("injected handler panic")
+	}
+}
+
+func registerEndpoint(path string, r, w, via int) error {
+	if _, err := api.GetEndpointByPath(path); err == nil {
+		return nil
+	}
+	e := api.Endpoint{Path: path, Read: api.Permission(r), Write: api.Permission(w), Name: "sim endpoint"}
+	switch via {
+	case 1:
+		e.ActionFunc = func(ar *api.Request) (string, error) { epRan(ar); return "done", nil }
+	case 2:
+		e.DataFunc = func(ar *api.Request) ([]byte, error) { epRan(ar); return []byte("data"), nil }
+	case 3:
+		e.StructFunc = func(ar *api.Request) (interface{}, error) { epRan(ar); return map[string]int{"a": 1}, nil }
+	case 4:
+		e.RecordFunc = func(ar *api.Request) (record.Record, error) {
+			epRan(ar)
+			w, err := record.NewWrapper("sim:rec", &record.Meta{}, dsd.JSON, []byte(`{"a":1}`))
+			return w, err
+		}
+	default:
+		e.HandlerFunc = func(w http.ResponseWriter, r *http.Request) {
+			epRan(api.GetAPIRequest(r))
+			if curPanicLate {
+				w.WriteHeader(http.StatusAccepted)
+			}
+			_, _ = w.Write([]byte("handler func ran"))
+		}
+	}
+	return api.RegisterEndpoint(e)
 }
 
 func keyName(i int) string { return fmt.Sprintf("k%dsecretkey", i) }
@@ -379,7 +428,20 @@ func (s *state) request(si int, st Step, h http.Handler) {
 	}
 	reqR, reqW := permPool[st.ReqR], permPool[st.ReqW]
 	host = hosts[st.Host%len(hosts)]
-	req := httptest.NewRequest(m, fmt.Sprintf("http://%s/vs/%d/%d", host, reqR, reqW), nil)
+	url := fmt.Sprintf("http://%s/vs/%d/%d", host, reqR, reqW)
+	via := st.Via
+	if via > 0 {
+		// an Endpoint of the chosen function type with these permissions (registered on first use; permissions an
+		// Endpoint cannot be registered with fall back to the custom handler)
+		path := fmt.Sprintf("vs-ep/%d/%d/%d", reqR, reqW, via)
+		if err := registerEndpoint(path, reqR, reqW, via); err != nil {
+			via = 0
+		} else {
+			url = fmt.Sprintf("http://%s/api/v1/%s", host, path)
+			rc.Probe("request-to-endpoint-" + []string{"", "action", "data", "struct", "record", "handlerfunc"}[via])
+		}
+	}
+	req := httptest.NewRequest(m, url, nil)
 	req.Host = host
 	req.RemoteAddr = "10.1.2.3:5555"
 	if acrm != "" {
@@ -487,6 +549,9 @@ func (s *state) request(si int, st Step, h http.Handler) {
 		if o.ran {
 			rc.Fail("C12.preflight-ran-handler", "a CORS preflight request invoked the handler", desc)
 		}
+		return
+	case ex.runs && via > 0 && m == "OPTIONS":
+		// an Endpoint answers OPTIONS itself (204) without calling its function
 		return
 	case ex.runs:
 		if !o.ran {
